@@ -100,33 +100,45 @@ theorem newMetric_ok (name doc typ : Str) (h : metricTypes.contains typ = true) 
   unfold newMetric
   simp only [if_neg (known_not_untyped typ h), h, if_true]
 
+theorem readEntry_gauge (parts : List Str) (mode pid : Str) (h1 : parts[1]? = some mode)
+    (h2 : parts[2]? = some (pid ++ ['.', 'd', 'b'])) (ms : List (Str × Metric V)) (e : Key × V × V) :
+    readEntry parts gaugeType ms e = .ok (readStep ms ⟨gaugeType, mode, pid, e.1, e.2.1, e.2.2⟩) := by
+  have hnew := newMetric_ok (V := V) e.1.metric e.1.help gaugeType (by decide)
+  unfold readEntry readStep toRSample
+  simp only [hnew, h1, h2]
+  cases hget : AL.get? ms e.1.metric with
+  | some m =>
+    simp only [bind, Except.bind, pure, Except.pure, if_true, Option.getD_some, dropLastN_ext]
+  | none =>
+    simp only [bind, Except.bind, pure, Except.pure, if_true, Option.getD_none, dropLastN_ext]
+
+theorem readEntry_other (parts : List Str) (typ mode pid : Str) (hg : typ ≠ gaugeType)
+    (hk : metricTypes.contains typ = true) (ms : List (Str × Metric V)) (e : Key × V × V) :
+    readEntry parts typ ms e = .ok (readStep ms ⟨typ, mode, pid, e.1, e.2.1, e.2.2⟩) := by
+  have hnew := newMetric_ok (V := V) e.1.metric e.1.help typ hk
+  unfold readEntry readStep toRSample
+  simp only [hnew]
+  cases hget : AL.get? ms e.1.metric with
+  | some m =>
+    simp only [bind, Except.bind, pure, Except.pure, if_neg hg, Option.getD_some]
+  | none =>
+    simp only [bind, Except.bind, pure, Except.pure, if_neg hg, Option.getD_none]
+
 theorem readEntry_ok (f : SFile V) (hf : WFFile f) (ms : List (Str × Metric V)) (e : Key × V × V) :
     readEntry (splitChar splitSep (baseName f.typ f.mode f.pid))
         ((splitChar splitSep (baseName f.typ f.mode f.pid)).headD []) ms e
       = .ok (readStep ms ⟨f.typ, f.mode, f.pid, e.1, e.2.1, e.2.2⟩) := by
-  have hnew := newMetric_ok (V := V) e.1.metric e.1.help f.typ hf.typ_known
   obtain ⟨typ, mode, pid, entries⟩ := f
-  simp only at hnew ⊢
   by_cases hg : typ = gaugeType
   · subst hg
+    show readEntry (splitChar splitSep (baseName gaugeType mode pid))
+      ((splitChar splitSep (baseName gaugeType mode pid)).headD []) ms e = _
     rw [split_gauge mode pid hf.mode_sep hf.pid_sep]
-    unfold readEntry readStep toRSample
-    simp only [List.headD_cons, hnew]
-    cases hget : AL.get? ms e.1.metric with
-    | some m =>
-      simp only [bind, Except.bind, pure, Except.pure, if_true, Option.getD_some]
-      simp [dropLastN_ext]
-    | none =>
-      simp only [bind, Except.bind, pure, Except.pure, if_true, Option.getD_none]
-      simp [dropLastN_ext]
-  · rw [split_other typ mode pid hg hf.typ_sep hf.pid_sep]
-    unfold readEntry readStep toRSample
-    simp only [List.headD_cons, hnew]
-    cases hget : AL.get? ms e.1.metric with
-    | some m =>
-      simp only [bind, Except.bind, pure, Except.pure, if_neg hg, Option.getD_some]
-    | none =>
-      simp only [bind, Except.bind, pure, Except.pure, if_neg hg, Option.getD_none]
+    exact readEntry_gauge _ mode pid rfl rfl ms e
+  · show readEntry (splitChar splitSep (baseName typ mode pid))
+      ((splitChar splitSep (baseName typ mode pid)).headD []) ms e = _
+    rw [split_other typ mode pid hg hf.typ_sep hf.pid_sep]
+    exact readEntry_other _ typ mode pid hg hf.typ_known ms e
 
 theorem readFile_ok (f : SFile V) (hf : WFFile f) (ms : List (Str × Metric V)) :
     readFile ms (toFile f) = .ok ((contribsOf f).foldl readStep ms) := by
